@@ -536,6 +536,61 @@ def gen_ops_for(pid, rng, n):
     return ops
 
 
+def alias_phase(chk, rng, n):
+    """C04 on stories whose variables SHARE mutable objects (two names for one list, a dict holding that list):
+    outside the Gallina model (its values are immutable trees), so judged by a model-independent law on the real
+    engine: a play-through with 'undo, then the same choice again' or 'undo, redo' inserted after any choice must end
+    in exactly the situation of the straight play-through - which it does iff every restore point preserves the
+    sharing structure of the variables as well as their values."""
+    stats = {"stories": 0, "inserted": 0, "compared_steps": 0}
+    cls = R.engine_class()
+    for _ in range(n):
+        sub = rng.randrange(10 ** 9)
+        r = random.Random(sub)
+        g = G.Gen(r, G.Profile(inplace=1.0, hooks=0.3, join=0.3, params=0.3, jumps=0.3, faults=0.0, loops=0.4))
+        lines = g.source().split("\n")
+        out = []
+        for l in lines:
+            out.append(l)
+            if l == "~ hk = 0":
+                out += ["~ ys = xs", "~ box = {'items': xs, 'table': d}", "~ d2 = d", "~ pair = [xs, xs]"]
+            elif l.startswith("[") and l.endswith("]") and not l.startswith("[H"):
+                out.append("Alias {ys} {box['items']} {box['table']} {d2} {pair}")
+        src = "\n".join(out)
+        try:
+            story = R.compile_story(src)
+        except Exception:
+            continue
+        stats["stories"] += 1
+        base = [("choose_valid", r.randint(0, 5)) for _ in range(r.randint(2, 7))]
+        ra, _ = R.run_history(story, base)
+        if any(x["obs"][0] != "ok" for x in ra):
+            continue
+        j = r.randrange(len(base))
+        ins = r.choice([[("undo",), base[j]], [("undo",), ("redo",)], [("undo",), base[j], ("undo",), ("redo",)]])
+        rb, _ = R.run_history(story, base[:j + 1] + ins + base[j + 1:])
+        stats["inserted"] += 1
+        # align: steps of A after j correspond to steps of B after j + len(ins)
+        for k in range(j + 1, len(ra)):
+            kb = k + len(ins)
+            if kb >= len(rb) or ra[k]["view"] is None or rb[kb]["view"] is None:
+                break
+            stats["compared_steps"] += 1
+            va, vb = strip_flags(ra[k]["view"]), strip_flags(rb[kb]["view"])
+            # record j+1 is choice j itself: in B the same position is the last inserted operation (views only)
+            if (k > j + 1 and ra[k]["obs"] != rb[kb]["obs"]) or va != vb:
+                diff = [kk for kk in va if va[kk] != vb[kk]]
+                chk.report("restore-point-lost-sharing" if diff in (["vars"], ["content"], ["vars", "content"]) else
+                           "undo-then-replay-differs",
+                           f"with {[o[0] for o in ins]} inserted after choice {j}, step {k} differs in {diff} from the straight "
+                           "play-through (two variables that shared one object no longer do after the restore)",
+                           {"subseed": sub, "story_source": src, "ops": [x['op'] for x in ra[1:]], "inserted_after": j,
+                            "inserted": ins})
+                break
+        chk.count(("alias", sub), True)
+    return stats
+
+
 def call_shape_phase(chk, rng, n):
     """C07 last clause: a story that compiles never fails at run time for a missing, surplus, unknown or doubly
     supplied argument.  Random signatures x call shapes x call-site kinds (top-level / nested choice or jump)."""
@@ -638,6 +693,8 @@ def run_engine_property(pid: str, tier: str, seed: int, design_note: str) -> int
 
     if pid == "C07":
         stats["call_shapes"] = call_shape_phase(chk, rng, 150 if tier == "quick" else 1500)
+    if pid == "C04":
+        stats["shared_objects"] = alias_phase(chk, rng, 60 if tier == "quick" else 600)
 
     long_histories = 0
     for i in range(n_cases):
